@@ -149,7 +149,8 @@ func builtinStringLastIndexOf(call FunctionCall) Value {
 	if 2 > len(call.ArgumentList) || call.ArgumentList[1].IsUndefined() {
 		return intValue(lastIndexRune(value, target))
 	}
-	length := len(value)
+	// The position counts UTF-16 code units, value holds UTF-8 bytes.
+	length := utf16Length(value)
 	if length == 0 {
 		return intValue(lastIndexRune(value, target))
 	}
@@ -165,11 +166,16 @@ func builtinStringLastIndexOf(call FunctionCall) Value {
 		// Clamp before adding, so that a huge position cannot overflow.
 		start.int64 = int64(length)
 	}
-	end := int(start.int64) + len(target)
+	if target == "" {
+		return intValue(int(start.int64))
+	}
+	end := int(start.int64) + utf16Length(target)
 	if end > length {
 		end = length
 	}
-	return intValue(lastIndexRune(value[:end], target))
+	// A match starting at or before start lies within the first end code units.
+	offset, _ := utf16Prefix(value, end)
+	return intValue(lastIndexRune(value[:offset], target))
 }
 
 func builtinStringMatch(call FunctionCall) Value {
